@@ -56,6 +56,15 @@ let f _id vs =
           else find want (i + 1) vl' pl'
         | _ -> None
       in
+      if Sys.getenv_opt "C10_ORACLE_STATS" <> None then
+        List.iter (fun (r, p) ->
+            let k = match p with
+              | PExact a when r.rq_hi -> "higher_exact"
+              | PExact a when a <> r.rq_ref -> "cached_exact_STALE_top_level_hit"
+              | PExact _ -> "cached_exact_reference"
+              | PExactOrCancelled _ -> "cached_exact_or_cancelled"
+              | PAnyAnswer -> if r.rq_obs = r.rq_ref then "cached_any_observed_fresh" else "cached_any_observed_stale" in
+            prerr_endline k) preds;
       if List.length verdicts <> List.length preds then "DIFF model verdict count"
       else
         match find 2 0 verdicts preds with
